@@ -1640,6 +1640,10 @@ func (d *DotGit) PackRefs() (err error) {
 
 	w := bufio.NewWriter(tmp)
 	for _, ref := range refs {
+		// A symbolic reference stays loose: packed-refs holds ids only.
+		if ref.Type() != plumbing.HashReference {
+			continue
+		}
 		_, err = w.WriteString(ref.String() + "\n")
 		if err != nil {
 			return err
@@ -1659,6 +1663,9 @@ func (d *DotGit) PackRefs() (err error) {
 	// Delete all the loose refs, while still holding the packed-refs
 	// lock.
 	for _, ref := range refs[:numLooseRefs] {
+		if ref.Type() != plumbing.HashReference {
+			continue
+		}
 		path := d.fs.Join(".", ref.Name().String())
 		err = d.fs.Remove(path)
 		if err != nil && !os.IsNotExist(err) {
